@@ -4,12 +4,12 @@
 (* (acmed.toml(5), TIME PERIODS):  period = ( digits unit )+ ,               *)
 (* unit in {s, m, h, d, w}, value = sum of the parts.                         *)
 (* Also the outcome classes of a daemon start (C19).                          *)
-(* Values are kept as <<minutes, seconds>> so that they stay inside TLC's     *)
-(* 32-bit integers for every numeral of up to five digits.                    *)
+(* Values are sequences of base-1000 limbs, so that numerals of any length   *)
+(* (and sums beyond 64 bits) are valued exactly inside TLC's 32-bit integers.  *)
 (***************************************************************************)
 EXTENDS Naturals, Sequences, FiniteSets, TLC, Json
 
-CONSTANTS Enforce, Alphabet, MaxLen
+CONSTANTS Enforce, Deviations, Alphabet, MaxLen
 
 VARIABLES phase, point, bad
 vars == <<phase, point, bad>>
@@ -21,33 +21,61 @@ DigitVal == [c \in {"0", "1", "2", "3", "4", "5", "6", "7", "8", "9"} |->
                  [] c = "5" -> 5 [] c = "6" -> 6 [] c = "7" -> 7 [] c = "8" -> 8 [] OTHER -> 9]
 IsDigit(c) == c \in DOMAIN DigitVal
 IsUnit(c) == c \in {"s", "m", "h", "d", "w"}
-MinutesOf(u) == CASE u = "m" -> 1 [] u = "h" -> 60 [] u = "d" -> 1440 [] u = "w" -> 10080 [] OTHER -> 0
+SecondsOf(u) == CASE u = "s" -> 1 [] u = "m" -> 60 [] u = "h" -> 3600 [] u = "d" -> 86400 [] u = "w" -> 604800 [] OTHER -> 0
+
+(* Exact arithmetic: a value is a sequence of base-1000 limbs, least significant first, without leading zero limbs  *)
+(* (zero is <<>>).  limb * 604800 + carry stays below 2^31, so TLC's integers are enough for numerals of any length. *)
+Base == 1000
+RECURSIVE MulAdd(_, _, _)
+MulAdd(v, m, c) ==                       \* v * m + c
+    IF v = <<>> THEN (IF c = 0 THEN <<>> ELSE <<c % Base>> \o MulAdd(<<>>, m, c \div Base))
+    ELSE LET t == Head(v) * m + c IN <<t % Base>> \o MulAdd(Tail(v), m, t \div Base)
+RECURSIVE AddC(_, _, _)
+AddC(a, b, c) ==
+    IF a = <<>> /\ b = <<>> THEN (IF c = 0 THEN <<>> ELSE <<c>>)
+    ELSE LET x == IF a = <<>> THEN 0 ELSE Head(a)
+             y == IF b = <<>> THEN 0 ELSE Head(b)
+             t == x + y + c
+         IN <<t % Base>> \o AddC(IF a = <<>> THEN a ELSE Tail(a), IF b = <<>> THEN b ELSE Tail(b), t \div Base)
+RECURSIVE Norm(_)
+Norm(v) == IF v # <<>> /\ v[Len(v)] = 0 THEN Norm(SubSeq(v, 1, Len(v) - 1)) ELSE v
+RECURSIVE LeqFrom(_, _, _)
+LeqFrom(a, b, i) == IF i = 0 THEN TRUE ELSE IF a[i] # b[i] THEN a[i] < b[i] ELSE LeqFrom(a, b, i - 1)
+Leq(a, b) == LET x == Norm(a) y == Norm(b) IN IF Len(x) # Len(y) THEN Len(x) < Len(y) ELSE LeqFrom(x, y, Len(x))
+U64Max == <<615, 551, 709, 73, 744, 446, 18>>          \* 18 446 744 073 709 551 615 s: what the daemon's durations can hold
 
 (* Scanner: st = "start" (a part must begin), "num" (inside a numeral), "bad".             *)
-(* acc = [min, sec, n]: minutes and seconds so far, the numeral being read.                 *)
+(* acc = [tot, n]: seconds so far, the numeral being read.                                  *)
+NoVal == [ok |-> FALSE, val |-> <<>>]
 RECURSIVE Scan(_, _, _, _)
 Scan(cs, i, st, acc) ==
-    IF st = "bad" THEN [ok |-> FALSE, min |-> 0, sec |-> 0]
+    IF st = "bad" THEN NoVal
     ELSE IF i > Len(cs)
-         THEN IF st = "start" /\ i > 1 THEN [ok |-> TRUE, min |-> acc.min + acc.sec \div 60, sec |-> acc.sec % 60]
-              ELSE [ok |-> FALSE, min |-> 0, sec |-> 0]
+         THEN IF st = "start" /\ i > 1 THEN [ok |-> TRUE, val |-> Norm(acc.tot)] ELSE NoVal
     ELSE LET c == cs[i] IN
-         IF IsDigit(c) THEN Scan(cs, i + 1, "num",
-                                 [acc EXCEPT !.n = IF acc.n > 9999 THEN acc.n ELSE acc.n * 10 + DigitVal[c]])  \* saturates: "big" numerals are not valued
+         IF IsDigit(c) THEN Scan(cs, i + 1, "num", [acc EXCEPT !.n = MulAdd(acc.n, 10, DigitVal[c])])
          ELSE IF IsUnit(c) /\ st = "num"
-              THEN Scan(cs, i + 1, "start",
-                        [min |-> IF acc.min > 1000000000 THEN acc.min ELSE acc.min + acc.n * MinutesOf(c),
-                         sec |-> acc.sec + (IF c = "s" THEN acc.n ELSE 0), n |-> 0])
+              THEN Scan(cs, i + 1, "start", [tot |-> AddC(acc.tot, MulAdd(acc.n, SecondsOf(c), 0), 0), n |-> <<>>])
               ELSE Scan(cs, i + 1, "bad", acc)
-Parse(cs) == Scan(cs, 1, "start", [min |-> 0, sec |-> 0, n |-> 0])
+Parse(cs) == Scan(cs, 1, "start", [tot |-> <<>>, n |-> <<>>])
 
-(* pt: [chars, ok, min, sec, panic, big]   (big: a numeral too long for the integers of TLC;   *)
-(* then only the grammar-side of the answer and crash-freedom are judged)                       *)
+(* pt: [chars, ok, val, panic]: what parse_duration answered - refused, or accepted with val seconds (limbs) *)
 JudgePeriod(pt) ==
-    LET e == Parse(pt.chars) IN
-         Chk("C19_NoCrash", ~pt.panic)
-    \cup Chk("C19_PeriodGrammar", IF pt.big THEN (pt.ok => e.ok) ELSE pt.ok = e.ok)
-    \cup Chk("C19_PeriodValue", (pt.ok /\ ~pt.big /\ e.ok) => (pt.min = e.min /\ pt.sec = e.sec))
+    LET e == Parse(pt.chars)
+        fits == Leq(e.val, U64Max)
+    IN   Chk("C19_NoCrash", ~pt.panic)
+    \* accepted exactly per the grammar: nothing outside it, and everything inside it that a duration can hold
+    \cup Chk("C19_PeriodGrammar", (pt.ok => e.ok) /\ ((e.ok /\ fits) => pt.ok))
+    \* ... and equal to the sum of the parts: a sum that does not fit cannot be accepted as something else
+    \cup Chk("C19_PeriodValue", (pt.ok /\ e.ok) => Norm(pt.val) = e.val)
+
+(* the code, with named departures *)
+Code(cs) ==
+    LET e == Parse(cs) IN
+    IF ~e.ok THEN NoVal
+    ELSE IF Leq(e.val, U64Max) THEN e
+    ELSE IF "SaturatingPeriod" \in Deviations THEN [ok |-> TRUE, val |-> U64Max]     \* too large: clamped instead of refused
+    ELSE NoVal
 
 (* pt: [hazard, outcome, message, must]   outcome in {"running", "error_exit", "crash", "hang"}; *)
 (* must: the outcome the hazard class demands, or "either"                                       *)
@@ -63,8 +91,8 @@ Evaluate(pt) == /\ point' = pt /\ phase' = "done"
 MCInit == phase = "init" /\ point = [e |-> "none"] /\ bad = {}
 MCNext == /\ phase = "init"
           /\ \E n \in 0..MaxLen : \E cs \in [1..n -> Alphabet] :
-               LET e == Parse(cs) IN
-               Evaluate([e |-> "Period", chars |-> cs, ok |-> e.ok, min |-> e.min, sec |-> e.sec, panic |-> FALSE, big |-> FALSE])
+               LET e == Code(cs) IN
+               Evaluate([e |-> "Period", chars |-> cs, ok |-> e.ok, val |-> e.val, panic |-> FALSE])
 MCSpec == MCInit /\ [][MCNext]_vars
 NoBad == bad \cap Enforce = {}
 Emit == (phase = "done") => PrintT(<<"REPLAY", ToJson(point.chars)>>)
